@@ -4,6 +4,8 @@ import (
 	"errors"
 	"reflect"
 
+	ucfg "github.com/elastic/go-ucfg"
+
 	"verif/harness/internal/gen"
 )
 
@@ -78,6 +80,76 @@ func (u *UnpStr) Unpack(s string) error {
 	return nil
 }
 
+// UnpInt unpacks itself from an integer setting (IntUnpacker). It STORES the
+// value in its receiver before it looks at it: 13 is rejected after the
+// receiver was overwritten. Like UnpStr it overwrites the whole value.
+type UnpInt struct {
+	N    int64
+	Seen bool
+}
+
+func (u *UnpInt) Unpack(i int64) error {
+	*u = UnpInt{N: i + 1000, Seen: true}
+	if i == 13 {
+		return errors.New("unpint: must not be 13")
+	}
+	return nil
+}
+
+// CfgUnp unpacks itself from an object (ConfigUnpacker) the way most
+// hand-written Unpack methods do: field by field through a twin type without
+// methods, straight into the receiver, and THEN it checks the result: hi == 13
+// is rejected after the receiver's fields were overwritten. On success it
+// behaves like a plain struct of the same fields (the settings merge into the
+// receiver). The inner Unpack runs without the options of the outer call, so
+// the fields are primitives that read the same names under every tag name.
+type CfgUnp struct {
+	Lo   int    `config:"lo" alt:"lo"`
+	Unit string `config:"unit" alt:"unit"`
+	Hi   int    `config:"hi" alt:"hi"`
+	keep int
+}
+
+func (u *CfgUnp) Unpack(c *ucfg.Config) error {
+	type plain CfgUnp
+	if err := c.Unpack((*plain)(u)); err != nil {
+		return err
+	}
+	if u.Hi == 13 {
+		return errors.New("cfgunp: hi must not be 13")
+	}
+	return nil
+}
+
+// AnyUnp does the same through the generic Unpacker interface: it receives the
+// object as map[string]interface{}, unpacks that field by field into its
+// receiver and rejects n == 13 afterwards.
+type AnyUnp struct {
+	N    int64  `config:"n" alt:"n"`
+	S    string `config:"s" alt:"s"`
+	B    bool   `config:"b" alt:"b"`
+	keep string
+}
+
+func (u *AnyUnp) Unpack(v interface{}) error {
+	m, ok := v.(map[string]interface{})
+	if !ok && v != nil { // (an object without settings arrives as nil)
+		return errors.New("anyunp: object required")
+	}
+	c, err := ucfg.NewFrom(m)
+	if err != nil {
+		return err
+	}
+	type plain AnyUnp
+	if err := c.Unpack((*plain)(u)); err != nil {
+		return err
+	}
+	if u.N == 13 {
+		return errors.New("anyunp: n must not be 13")
+	}
+	return nil
+}
+
 // DefOuter has defaults of its own and contains types that have defaults
 // (initialisation is top-down: the outer defaults run first).
 type DefOuter struct {
@@ -139,9 +211,12 @@ const (
 	kValInt    = "cat:c13_valint"
 	kUnpStr    = "cat:c13_unpstr"
 	kDefOuter  = "cat:c13_defouter"
+	kUnpInt    = "cat:c13_unpint"
+	kCfgUnp    = "cat:c13_cfgunp"
+	kAnyUnp    = "cat:c13_anyunp"
 )
 
-var catKinds = []string{kDefStruct, kDefInt, kDefMap, kValStruct, kValInt, kUnpStr, kDefOuter, kDefStruct, kValStruct}
+var catKinds = []string{kDefStruct, kDefInt, kDefMap, kValStruct, kValInt, kUnpStr, kDefOuter, kCfgUnp, kDefStruct, kValStruct, kUnpInt, kAnyUnp, kCfgUnp}
 
 func td(kind string) *gen.TD { return &gen.TD{Kind: kind} }
 
@@ -165,6 +240,24 @@ func init() {
 	gen.RegisterCat("c13_unpstr", reflect.TypeOf(UnpStr{}), &gen.TD{Kind: "struct", Fields: []gen.FD{
 		{Name: "S", Tag: "s", T: td("string")},
 	}})
+	gen.RegisterCat("c13_unpint", reflect.TypeOf(UnpInt{}), &gen.TD{Kind: "struct", Fields: []gen.FD{
+		{Name: "N", Tag: "n", T: td("int64")},
+		{Name: "Seen", Tag: "seen", T: td("bool")},
+	}})
+	cfgUnp := []gen.FD{
+		{Name: "Lo", Tag: "lo", T: td("int")},
+		{Name: "Unit", Tag: "unit", T: td("string")},
+		{Name: "Hi", Tag: "hi", T: td("int")},
+		{Name: "keep", Tag: "keep", Unexp: true, T: td("int")},
+	}
+	registerStruct("c13_cfgunp", reflect.TypeOf(CfgUnp{}), cfgUnp, cfgUnp)
+	anyUnp := []gen.FD{
+		{Name: "N", Tag: "n", T: td("int64")},
+		{Name: "S", Tag: "s", T: td("string")},
+		{Name: "B", Tag: "b", T: td("bool")},
+		{Name: "keep", Tag: "keep", Unexp: true, T: td("string")},
+	}
+	registerStruct("c13_anyunp", reflect.TypeOf(AnyUnp{}), anyUnp, anyUnp)
 	registerStruct("c13_defstruct", reflect.TypeOf(DefStruct{}), []gen.FD{
 		{Name: "X", Tag: "x", T: td("int")},
 		{Name: "Y", Tag: "y", T: td("string")},
@@ -224,7 +317,7 @@ func init() {
 }
 
 // topKinds are the catalogue structs that also serve as the type of the whole target.
-var topKinds = []string{kTop, kTop, kDefStruct, kValStruct, kDefOuter}
+var topKinds = []string{kTop, kCfgUnp, kTop, kDefStruct, kAnyUnp, kValStruct, kDefOuter, kCfgUnp}
 
 type initer interface{ InitDefaults() }
 
@@ -252,6 +345,9 @@ func callInit(v reflect.Value) {
 func leafBase(t *gen.TD) string {
 	if t.Kind == kUnpStr {
 		return "unpstr"
+	}
+	if t.Kind == kUnpInt {
+		return "unpint"
 	}
 	sh := t.Shape()
 	if sh.IsLeaf() {
